@@ -78,7 +78,7 @@ impl<'a, const N: usize> FixR<'a, N> {
 impl<'a, const N: usize> Read for FixR<'a, N> {
     fn read(&mut self, out: &mut [u8]) -> Result<usize> {
         self.op()?;
-        if self.pos >= self.fail_pos {
+        if self.fail_pos != u64::MAX && self.pos >= self.fail_pos {
             self.failed = true;
             return Err(Error::from(ErrorKind::Other));
         }
@@ -138,7 +138,7 @@ impl<'a, const N: usize> Seek for FixR<'a, N> {
             SeekFrom::Current(d) => (self.pos as i64).wrapping_add(d) as u64,
             SeekFrom::End(d) => (self.len as i64).wrapping_add(d) as u64,
         };
-        if target >= self.fail_pos {
+        if self.fail_pos != u64::MAX && target >= self.fail_pos {
             self.failed = true;
             return Err(Error::from(ErrorKind::Other));
         }
